@@ -12,6 +12,7 @@ def parseEv (t : String) : Option Ev :=
   | 'a' :: r => (String.ofList r).toNat?.map .acq
   | 'r' :: r => (String.ofList r).toNat?.map .rel
   | ['c'] => some .commit
+  | ['u'] => some .commit      -- a commit that did not wait for the disk (see `earlyReveal`)
   | ['f'] => some .abort       -- a commit the journal refused takes the abort path
   | ['x'] => some .abort
   | _ => none
@@ -57,9 +58,15 @@ def freeRestarts : Nat := 1
 def outcomes (txns : List (List String)) : List (Bool × Bool) :=
   txns.filterMap fun t =>
     match t with
-    | "S" :: toks => some (true, toks.contains "c")
-    | "B" :: toks => some (false, toks.contains "c")
+    | "S" :: toks => some (true, toks.contains "c" || toks.contains "u")
+    | "B" :: toks => some (false, toks.contains "c" || toks.contains "u")
     | _ => none
+
+/-- M11 (`Model/Reveal`, `Props/C03.what_another_transaction_reads_is_durable`): the discipline
+    "a transaction gives its locks back only when nothing of it is pending, unstable WRITEs aside",
+    on the recorded events: `u` is the commit of a transaction that wrote something and did not wait
+    for the disk; its locks are released right after it.  Only WRITE may do that. -/
+def earlyReveal (op : String) (toks : List String) : Bool := toks.contains "u" && op ≠ "write"
 
 def isMark (m : String) : Bool := m = "T" || m = "S" || m = "B"
 
@@ -77,7 +84,8 @@ def step (_ : Unit) (line : String) : Unit × Option String :=
           match checkTxn op es with
           | some m => some m
           | none =>
-            if insertsChecked ns [] then none
+            if earlyReveal op toks then some "locks are given back while the transaction's changes are only in the journal's memory (commit without waiting for the disk): the next holder is answered from changes a crash undoes"
+            else if insertsChecked ns [] then none
             else some "a name is inserted into a directory without having been looked up in the same transaction (check and insert are not atomic)"
         | _, _ => some "unparsable event"
       | _ => some "empty transaction"
